@@ -100,7 +100,16 @@ P = {
          "on C15 and are not decided.",
          TRUST + "Values of static type ucfg.Error are typed by the Go type system.",
          "§3 C14, appendix B E9"),
- "C15": (False, "", "", "", "§3 C15"),
+ "C15": (True,
+         "store/context pairing analysis over all writers of node storage on SSA (E2, custom)",
+         "Decides that the invariant behind Path/Parent/FlattenedKeys/diff — a value stored under key k in node N has ctx.field == k and ctx.parent == N "
+         "— is established by every writer: at each call of fields.set/setAt/append and each direct store into fields.d/.a the stored value's context "
+         "(recovered from the producing cpy call, a following SetContext, the normalize call or the literal) pairs with the storage key and with the "
+         "owner of the receiving fields; in-place element moves are followed by renumbering of every moved element; every SetContext implementation "
+         "stores its argument reachably on every path; Parent() and path() read the same two fields. Since the invariant can only be broken at a "
+         "store or a move, it holds after any operation history. FlattenedKeys' set equality and the diff partition are not decided.",
+         TRUST,
+         "§3 C15"),
  "C16": (True,
          "sibling agreement of option pairs + CFG path rule on the child-options function (custom analyzer)",
          "Decides that XValues/FieldXValues install the same constant, that the constant reaches options.configValueHandling resp. the handling table, "
